@@ -143,6 +143,32 @@ Theorem C14_fit_first_iteration : forall fuel dx dy id c,
 Proof. exact fit_first_iteration. Qed.
 Print Assumptions C14_fit_first_iteration.
 
+(* specification of the growth loop: the returned count k is the LEAST one whose probed voxel (shift k + 1) is not below the clearance,
+   all earlier probes being below it — met by the loop for EVERY distance oracle (no monotonicity), with termination under fuel *)
+Theorem C14_fit_loop_meets_spec : forall c ok d fuel k, (forall m, ok m = true) ->
+  (fit_loop fuel c ok d 1 = Some (Ok k) <-> k < Z.of_nat fuel /\ least_stop c d k = true).
+Proof. exact fit_loop_meets_spec. Qed.
+Print Assumptions C14_fit_loop_meets_spec.
+Theorem C14_least_stop_meaning : forall c d k, least_stop c d k = true <->
+  0 <= k /\ (forall m, 1 <= m <= k -> (d m <? c)%float = true) /\ (d (k + 1)%Z <? c)%float = false.
+Proof. exact least_stop_spec. Qed.
+Print Assumptions C14_least_stop_meaning.
+Theorem C14_least_stop_unique : forall c d k k', least_stop c d k = true -> least_stop c d k' = true -> k = k'.
+Proof. exact least_stop_unique. Qed.
+Print Assumptions C14_least_stop_unique.
+(* the whole fit on a valid ID and a non-negative clearance: (H, V) = the least stops of the column loop and of the row loop *)
+Theorem C14_fit_model_meets_spec : forall fuel dx dy i c H V, valid i -> (c <? 0)%float = false ->
+  (fit_model fuel dx dy (print_eid i) c = Some (Ok (H, V)) <->
+   H < Z.of_nat fuel /\ V < Z.of_nat fuel /\
+   least_stop c (dx (print_eid i)) H = true /\ least_stop c (dy (print_eid i)) V = true).
+Proof. exact fit_model_meets_spec. Qed.
+Print Assumptions C14_fit_model_meets_spec.
+Example C14_nonvacuous_loop :
+  let d := fun n : Z => if (n <=? 1)%Z then 0%float else if (n =? 2)%Z then 38%float else 76%float in
+  fit_loop 64 50%float (fun _ => true) d 1 = Some (Ok 2) /\ fit_loop 64 38%float (fun _ => true) d 1 = Some (Ok 1) /\
+  least_stop 50%float d 2 = true /\ least_stop 50%float d 1 = false /\ least_stop 50%float d 3 = false.
+Proof. vm_compute. repeat split; reflexivity. Qed.
+
 (* ---- executable instance and run-time checker ---- *)
 (* the extracted model (balanced-tree sets) has the error flag and, up to order, the result of the model for every map order *)
 Theorem C14_executable_is_model : forall ord_n ord_u ord_q fit nearb line skip,
